@@ -360,6 +360,43 @@ def gen_mbs(rng, full):
     return ops
 
 
+def gen_mbsq(rng, full):
+    """consecutive calls on ONE conversion state (seeded C14-16): the first call ends inside a 2/3/4-byte
+    character at every cut position; the next call continues with the right tail / an ASCII byte / a wrong
+    byte / a new lead byte; three-call splits of the 3- and 4-byte characters; explicit mbstate_t and
+    ps == NULL (the function's internal state; only sequences that leave it initial again)"""
+    ops = []
+    chars = (b"\xc3\xa9", b"\xe2\x82\xac", b"\xf0\x9f\x98\x80")
+    dls = ("null", "0", "1", "2", "3", "8")
+    for ch in chars:
+        for k in range(1, len(ch)):
+            for pre in (b"", b"a"):
+                first = pre + ch[:k]
+                conts = [("tail", ch[k:]), ("tail", ch[k:] + b"b"), ("ascii", b"b" + ch[k:]), ("ascii", b"b"),
+                         ("wrong", b"\xff"), ("wrong", b"\x28" + ch[k:]),
+                         ("lead", b"\xc3\xa9"), ("lead", ch), ("empty", b"")]
+                for kind, c in conts:
+                    for dl in dls:
+                        ops.append("mbsq ps %s %s %s" % (dl, H(first), H(c)))
+                        if kind in ("tail", "empty"):
+                            ops.append("mbsq ps %s %s %s %s" % (dl, H(first), H(c), H(b"b" + ch if kind == "tail" else ch[k:])))
+                    if kind == "tail":
+                        for dl in ("null", "8"):
+                            ops.append("mbsq null %s %s %s" % (dl, H(first), H(c)))
+            for k2 in range(k + 1, len(ch)):
+                for dl in dls:
+                    ops.append("mbsq ps %s %s %s %s" % (dl, H(b"a" + ch[:k]), H(ch[k:k2]), H(ch[k2:] + b"b")))
+                    ops.append("mbsq ps %s %s %s %s" % (dl, H(ch[:k]), H(ch[k:k2]), H(b"b" + ch[k2:])))
+                    ops.append("mbsq ps %s %s %s %s" % (dl, H(ch[:k]), H(b"\x41"), H(ch[k:])))
+                for dl in ("null", "8"):
+                    ops.append("mbsq null %s %s %s %s" % (dl, H(b"a" + ch[:k]), H(ch[k:k2]), H(ch[k2:] + b"b")))
+    # complete characters only: the state stays initial, calls are independent
+    for dl in ("null", "2"):
+        ops.append("mbsq ps %s %s %s %s" % (dl, H(b"a\xc3\xa9"), H(b"\xe2\x82\xac"), H(b"b")))
+        ops.append("mbsq null %s %s %s" % (dl, H(b"a\xc3\xa9"), H(b"b")))
+    return ops
+
+
 def gen_getline(rng, full):
     ops = []
     toks = [b"a", b"\n", b"\x00", b"bc", b"\n\n", b"\r\n"]
@@ -707,7 +744,7 @@ def run(ck):
     groups["pton6"] = gen_pton6(rng, full, (60000 if full else 6000) * (4 if intensify else 1))
     groups["fmt"] = gen_fmt(rng, full)
     groups["reallocarray"] = gen_realloc(rng, full)
-    groups["mbs"] = gen_mbs(rng, full)
+    groups["mbs"] = gen_mbs(rng, full) + gen_mbsq(rng, full)
     groups["getline"] = gen_getline(rng, full)
     groups["timegm"] = gen_timegm(rng, full)
     groups["fnmatch"] = gen_fnmatch(rng, full or intensify)
